@@ -233,14 +233,20 @@ func (h *H) phaseLimits(shard, shards int) {
 		}
 		// codec level
 		var enc []byte
-		err, _, _ := lib.Try(func() error {
+		err, panicked, _ := lib.Try(func() error {
 			var e error
 			enc, e = marshalAs(c.t, reflect.ValueOf(c.v))
 			return e
 		})
 		if err != nil {
-			// refusing at write time is fine: nothing unreadable is stored
-			res.Hit(label + ":rejected-at-write")
+			// the encoder has no size limits: a value it refuses (or panics on) cannot be stored at
+			// all, which is as much a loss as an unreadable record
+			sig := "marshal-fails-at-size-" + c.kind
+			if panicked {
+				sig = "marshal-panics-at-size-" + c.kind
+			}
+			res.Violate(lib.Violation{Sig: sig, What: fmt.Sprintf("%s with %s size %d cannot be encoded: %v", c.field, c.kind, c.n, err),
+				Replay: h.spec("limits", 0, map[string]any{"kind": c.kind, "field": c.field, "size": c.n})})
 			continue
 		}
 		var back reflect.Value
